@@ -31,9 +31,11 @@ Section Valid.
         Ok ((n, fst x) :: fst y, snd y)
     end.
 
-  (* outputs (after the F23 fix):
-       for name in names: if name not in group: group[name] = result.pop(name)
-     — a tensor listed twice among the signature outputs is filed once *)
+  (* outputs and constants (after the F23 / F26 fixes):
+       for name in names: if name not in <groups filled so far>: group[name] = result.pop(name)
+     — a tensor listed twice among the signature outputs, an output that is
+     also an input, a constant that is also an output: filed once, under the
+     first of inputs / outputs / constants that lists it *)
   Fixpoint pop_all_skip (r : results) (names seen : list Z) : res (results * results) :=
     match names with
     | [] => Ok ([], r)
@@ -50,8 +52,8 @@ Section Valid.
 
   Definition partition (r : results) (ins outs consts : list Z) : res groups :=
     a <- pop_all r ins ;;
-    b <- pop_all_skip (snd a) outs [] ;;
-    c <- pop_all (snd b) consts ;;
+    b <- pop_all_skip (snd a) outs ins ;;                  (* an output that is an input stays under inputs *)
+    c <- pop_all_skip (snd b) consts (ins ++ outs) ;;      (* a constant that is an output stays under outputs *)
     Ok {| g_inputs := fst a; g_outputs := fst b; g_constants := fst c;
           g_intermediates := snd c |}.
 
